@@ -1,0 +1,37 @@
+use crate::map::node::Color;
+use crate::map::pool::Pool;
+use crate::map::tree::MapTree;
+use crate::verif::{VerifSlot, VerifSnapshot};
+
+impl<K: Copy, V: Clone> MapTree<K, V> {
+    /// Read-only view of the arena; `f` maps a stored (key, value) to what the caller wants to keep.
+    pub fn verif_snapshot<T, F: Fn(&K, &V) -> T>(&self, f: F) -> VerifSnapshot<T> {
+        VerifSnapshot {
+            root: self.root,
+            slots: self
+                .store
+                .buffer
+                .iter()
+                .map(|n| VerifSlot {
+                    parent: n.parent,
+                    left: n.left,
+                    right: n.right,
+                    red: n.color == Color::Red,
+                    payload: f(&n.entity.key, &n.entity.val),
+                })
+                .collect(),
+            free: self.store.unused.clone(),
+            free_capacity: self.store.unused.capacity(),
+        }
+    }
+
+    /// Field-for-field copy. The free list keeps its capacity, which the pool uses as growth step.
+    pub fn verif_clone(&self) -> Self {
+        let mut unused = Vec::with_capacity(self.store.unused.capacity());
+        unused.extend_from_slice(&self.store.unused);
+        Self {
+            store: Pool { buffer: self.store.buffer.clone(), unused },
+            root: self.root,
+        }
+    }
+}
